@@ -722,7 +722,29 @@ def _unbound_exit_manager(base, name):
     return make
 
 
+class _CallableExit(object):
+    """An object that plays the part of __exit__ without being a function: no __name__,
+    no __get__ (contextlib binds it to the manager itself with types.MethodType)."""
+
+    def __init__(self, mgr, base):
+        self.mgr = mgr
+        self.base = base
+
+    def __call__(self, *args):
+        if args and args[0] is self.mgr:
+            args = args[1:]
+        return self.base.__exit__(self.mgr, *args)
+
+
+def _nameless_exit_manager(W, F, k, enter_script, exit_script, swallow, shape):
+    cls = type("SyncMNamelessExit", (SyncM,), {"nameless_exit": True})
+    m = cls(W, F, k, enter_script, exit_script, swallow, shape)
+    cls.__exit__ = _CallableExit(m, SyncM)
+    return m
+
+
 MGR_KINDS = {
+    "NS": _nameless_exit_manager,
     "US": _unbound_exit_manager(SyncM, "__exit__"),
     "UA": _unbound_exit_manager(AsyncM, "__aexit__"),
     "S": SyncM,
